@@ -1620,7 +1620,18 @@ class Engine:
         fn = f.fn if isinstance(f, FnV) else None
         kind, callee = self.prog.resolve_callee(fn)
         results = None
-        if kind == 'local':
+        fv = f
+        hops = 0
+        while isinstance(fv, RefV) and hops < 3:
+            fv = self.read(st, fv.path)
+            hops += 1
+        if fn is None and isinstance(fv, (ClosureV, FnV)):
+            # a call through a function pointer whose value is known (a non-capturing closure or a fn item kept in a
+            # table of handlers): the call of that function
+            for h in self.hooks:
+                h('call', st, fr, bi, fv.func if isinstance(fv, ClosureV) else (fv.fn.get('resolved') or fv.fn.get('path')), args, t)
+            results = self.call_value(st, fv, args, depth, fr, bi)
+        elif kind == 'local':
             cb = self.prog.bodies.get(callee)
             if cb is not None and cb.kind == 'closure' and fn is not None and fn.get('path', '').startswith(('std::ops::Fn', 'core::ops::Fn')) \
                     and len(args) == 2 and isinstance(args[1], StructV) and all(k.isdigit() for k in args[1].fields):
@@ -2055,7 +2066,8 @@ class Engine:
         cinfo = self.probe_loop(st, fr, head, blocks, depth)
         pre = {}
         if cinfo:
-            for l in set(cinfo['mono']) | {k[1] for (k, _r, _e, _c) in cinfo.get('bounds', [])} | set(cinfo.get('opt', {})):
+            for l in set(cinfo['mono']) | {k[1] for (k, _r, _e, _c) in cinfo.get('bounds', [])} | set(cinfo.get('opt', {})) | \
+                    ({cinfo['rot'][0]} if cinfo.get('rot') else set()):
                 pre[l] = st.store.get(('L', fr.uid, l))
         self.plain_havoc(st, fr, head, blocks)
         if cinfo:
@@ -2296,6 +2308,8 @@ class Engine:
         moved: {mono: {local: (direction, exact step or None)}, guard: (op, local, bound) or None}"""
         body = fr.body
         gc = self.guard_chain(body, head, blocks)
+        if gc is None and self.probing < 3 and not self.cfg.get('no_probe'):
+            return self.probe_rotated(st, fr, head, blocks, depth)
         if gc is None or self.probing >= 3 or self.cfg.get('no_probe'):
             return None
         chain, gbb, cont_true, ginfo = gc
@@ -2494,11 +2508,156 @@ class Engine:
         return dict(mono=mono, guard=guard, bounds=bounds, opt={l: (oi['dir'], optlast[l], bool(oi['none'])) for l, oi in optinfo.items()},
                     ginfo=ginfo)
 
+    def probe_rotated(self, st, fr, head, blocks, depth):
+        """a counting loop with its test after the body: `let mut y = hi; loop { body(y); if y == lo { break } y -= 1; }`
+        (or upwards).  Found like the `while` form - one pass over the body on a scratch state - with the
+        candidate invariant `lo <= y` (resp. `y <= hi`) assumed at the head and shown again at every back edge.
+        -> cinfo with 'rot' = (local, direction, bound) or None"""
+        from . import structural
+        body = fr.body
+        cache = body.__dict__.setdefault('_rg', {})
+        if head not in cache:
+            cache[head] = structural.rotated_guard(body, head, blocks)
+        rg = cache[head]
+        if rg is None:
+            return None
+        gbb, cont_true = rg
+
+        def run(assume=None):
+            sp = st.fork()
+            water = next(values._sym_counter)
+            self.plain_havoc(sp, fr, head, blocks)
+            heads = {}
+            for l in self.loop_mod(fr, blocks):
+                v = sp.store.get(('L', fr.uid, l))
+                if isinstance(v, NumV) and v.sym is not None and v.sym > water and v.k == 0:
+                    heads[l] = v
+            if assume is not None:
+                l, dirn, bound = assume
+                if l not in heads:
+                    return None
+                if not (self.assume_le(sp, bound, heads[l]) if dirn == 'dec' else self.assume_le(sp, heads[l], bound)):
+                    return None
+            saved = (self.hooks, self.event_hook, self.call_trace_hook)
+            self.hooks, self.event_hook, self.call_trace_hook = [], None, None
+            self.probing += 1
+            try:
+                results, backs, guards = self._explore(sp, fr, head, depth, region=(head, blocks, gbb))
+            except Budget:
+                raise
+            except Exception:
+                return None
+            finally:
+                self.probing -= 1
+                self.hooks, self.event_hook, self.call_trace_hook = saved
+            return water, heads, backs, guards
+        r1 = None
+        try:
+            r1 = run()
+        except Budget:
+            raise
+        except Exception:
+            r1 = None
+        why = 'the test that leaves the loop is not an (in)equality between a local that moves by one and a value the loop leaves alone'
+        rot = None
+        if r1:
+            water, heads, backs, guards = r1
+            for gv in guards:
+                if isinstance(gv, BoolV) and gv.val is not None:
+                    continue        # decided on this path by what the body already learnt (e.g. y + n <= last, so y != last)
+                atom = gv.atom if isinstance(gv, BoolV) else None
+                if not (atom and atom[0] == 'cmp' and atom[1] in ('eq', 'ne') and isinstance(atom[2], NumV) and isinstance(atom[3], NumV)):
+                    rot = None
+                    break
+                # continue while the two differ?
+                cont_ne = (atom[1] == 'eq' and not cont_true) or (atom[1] == 'ne' and cont_true)
+                if not cont_ne:
+                    rot = None
+                    break
+                cand = None
+                for l, L in heads.items():
+                    for (a, b) in ((atom[2], atom[3]), (atom[3], atom[2])):
+                        if a.sym == L.sym and a.k == 0 and b.sym != L.sym and (b.sym is None or b.sym <= water):
+                            cand = (l, b)
+                if cand is None or (rot is not None and (rot[0] != cand[0] or rot[1].key() != cand[1].key())):
+                    rot = None
+                    break
+                rot = cand
+            if rot is not None and backs:
+                l, bound = rot
+                L = heads[l]
+                steps = set()
+                for sb in backs:
+                    cur = sb.store.get(('L', fr.uid, l))
+                    if isinstance(cur, NumV) and cur.sym == L.sym:
+                        steps.add(cur.k)
+                    else:
+                        steps.add(None)
+                if steps == {-1}:
+                    rot = (l, 'dec', bound)
+                elif steps == {1}:
+                    rot = (l, 'inc', bound)
+                else:
+                    rot, why = None, '%s does not move by exactly one on every path through the body' % body.local_name(l)
+            elif rot is not None:
+                rot = None
+        ok = False
+        if rot is not None:
+            # the candidate invariant, assumed at the head, must hold again at every back edge
+            r2 = run(assume=rot)
+            if r2:
+                _w, heads2, backs2, _g = r2
+                l, dirn, bound = rot
+                ok = bool(backs2)
+                for sb in backs2:
+                    cur = sb.store.get(('L', fr.uid, l))
+                    if not isinstance(cur, NumV):
+                        ok = False
+                        break
+                    if (self.prove_le(sb, bound, cur) if dirn == 'dec' else self.prove_le(sb, cur, bound)) is not True:
+                        ok = False
+                        break
+            if not ok:
+                why = 'the bound the exit test compares with is not shown to stay on the far side of %s' % body.local_name(rot[0])
+        if not ok:
+            if not self.probing:
+                self.loop_rank.setdefault((fr.func, head), []).append(dict(ok=False, why=why, paths=0))
+            return None
+        return dict(mono={}, bounds=[], opt={}, guard=None, ginfo=None, rot=rot)
+
     def apply_counters(self, st, fr, head, cinfo, pre):
         """after the cut: what the probe established about the integer locals of the loop.  A local that
         only rises stays at or above its value on entry; the local the guard tests, when it moves by a
         fixed step, is the element of a range iteration"""
         body = fr.body
+        if cinfo.get('rot'):
+            l, dirn, bound = cinfo['rot']
+            L = st.store.get(('L', fr.uid, l))
+            l0 = pre.get(l)
+            entry_ok = isinstance(L, NumV) and isinstance(l0, NumV) and L.sym is not None and L.k == 0 and \
+                (self.prove_le(st, bound, l0) if dirn == 'dec' else self.prove_le(st, l0, bound)) is True
+            if not self.probing:
+                self.loop_rank.setdefault((fr.func, head), []).append(dict(
+                    ok=entry_ok, paths=1,
+                    why=('%s moves by exactly one per iteration towards a value the loop does not change, starts on the near side of it, and the loop is left '
+                         'when the two are equal' % body.local_name(l)) if entry_ok else
+                        ('%s is not shown to start on the near side of the value the exit test compares it with (the walk could miss it)' % body.local_name(l))))
+            if not entry_ok:
+                return
+            ty = L.ty
+            if dirn == 'dec':
+                self.assume_le(st, bound, L)
+                self.assume_le(st, L, l0)
+                it = IterV('range', 'std::ops::RangeInclusive<%s>' % ty, (bound, l0, True), ops=(('rev',),))
+            else:
+                self.assume_le(st, L, bound)
+                self.assume_le(st, l0, L)
+                it = IterV('range', 'std::ops::RangeInclusive<%s>' % ty, (l0, bound, True), ops=())
+            st.vn[('itersym', L.sym)] = it
+            self.loop_counters.setdefault((fr.func, head), set()).add(l)
+            st.vn[('counter', fr.uid, head)] = dict(local=l, elem=L, dir=dirn, step=1, lo=it.args[0], hi=it.args[1], incl=True)
+            st.vn[('counter-desc', fr.uid, head)] = ('range', it.args[0], it.args[1], True, tuple(o[0] for o in it.ops))
+            return
         for l, (dirn, step, least) in cinfo['mono'].items():
             L = st.store.get(('L', fr.uid, l))
             l0 = pre.get(l)
